@@ -2,8 +2,8 @@ SPECIFICATION Spec
 CONSTANTS
   Octants <- OctT
   Fillers <- FillT
-  NOct = {2, 3, 4}
-  NFill = {0, 1, 2}
+  NOct = {2, 3}
+  NFill = {0, 1}
   DVals = {0, 1, 2}
 INVARIANT Laws
 INVARIANT Emit
